@@ -85,7 +85,7 @@ def shaped(draw, tier):
     return spec
 
 
-def big(k, m, w, jitter):
+def big(k, m, w, jitter, direction="up"):
     """k clusters of m labels (width w) on an axis long enough to keep the clusters apart"""
     S = 2 * m * (w + 4 + 3)
     L = k * S
@@ -94,13 +94,18 @@ def big(k, m, w, jitter):
         c = j * S + S // 2
         for i in range(m):
             data.append({"time": float(c + (i * jitter) % (m // 2 + 1)), "width": w})
-    return dict(kind="linear", data=data, opts={"direction": "up", "initialWidth": L + 40, "initialHeight": 300, "labella": {}}, scale="own", domain=[0.0, float(L)], options_mode="dict", big=True)
+    o = {"direction": direction, "labella": {}}
+    if direction in ("up", "down"):
+        o.update(initialWidth=L + 40, initialHeight=300)
+    else:
+        o.update(initialWidth=300, initialHeight=L + 40)
+    return dict(kind="linear", data=data, opts=o, scale="own", domain=[0.0, float(L)], options_mode="dict", big=True)
 
 
 def strategy(tier):
     if tier == "quick":
         return shaped(tier)
-    bigs = st.builds(big, st.integers(2, 6), st.integers(40, 150), st.sampled_from([10, 20]), st.sampled_from([0, 1, 3, 7]))
+    bigs = st.builds(big, st.integers(2, 6), st.integers(40, 150), st.sampled_from([10, 20]), st.sampled_from([0, 1, 3, 7]), st.sampled_from(["up", "down", "left", "right"]))
     return st.one_of(shaped(tier), shaped(tier), shaped(tier), shaped(tier), shaped(tier), shaped(tier), shaped(tier), bigs)
 
 
